@@ -202,6 +202,8 @@ impl Snapshot {
 	/// is dropped, so building a temporary one just to call the helper would
 	/// unregister the sequence number of the real, still-live snapshot.
 	pub(crate) fn collect_iter_state_from(core: &Arc<Core>) -> Result<IterState> {
+		#[cfg(surrealkv_verif)]
+		crate::verif::acquire_point("memtable:read-lock", &|| core.active_memtable.try_read().is_err());
 		let active = guardian::ArcRwLockReadGuardian::take(Arc::clone(&core.active_memtable))?;
 		let immutable =
 			guardian::ArcRwLockReadGuardian::take(Arc::clone(&core.immutable_memtables))?;
@@ -229,6 +231,8 @@ impl Snapshot {
 	pub(crate) fn get(&self, key: &[u8]) -> crate::Result<Option<(Value, u64)>> {
 		// self.core.get_internal(key, self.seq_num)
 		// Read lock on the active memtable
+		#[cfg(surrealkv_verif)]
+		crate::verif::acquire_point("memtable:read-lock", &|| self.core.active_memtable.try_read().is_err());
 		let memtable_lock = self.core.active_memtable.read()?;
 
 		// Check the active memtable for the key
